@@ -84,6 +84,35 @@ func init() {
 // assignability error, say) was tried and dropped: over 40000 generated packages it produced classes
 // seen once or twice, i.e. an open tail that a fixed list of findings cannot cover without raising
 // alarms on the unchanged tree at other seeds (DESIGN section 12, C06).
+var toolchainTrouble = regexp.MustCompile(`\$WORK|importcfg|no binary produced|signal: killed|no space left|cannot allocate`)
+
+// generatedOnly keeps the lines of a go build diagnostic that concern the file the compiler under
+// test wrote for package pkg: lines about other packages of the same build batch and lines that
+// point into a hand-written Go file of the package are dropped (redeclarations stay, they involve
+// two files).
+func generatedOnly(be, pkg string, c Case) string {
+	var keep []string
+	for _, line := range strings.Split(be, "\n") {
+		t := strings.TrimSpace(line)
+		if t == "" || strings.HasPrefix(t, "#") {
+			continue
+		}
+		if i := strings.Index(t, "/"); i > 0 && strings.HasPrefix(t, "p") && t[:i] != pkg && len(t[:i]) == len(pkg) {
+			continue // another package of the batch
+		}
+		drop := false
+		for name := range c.Files {
+			if strings.HasSuffix(name, ".go") && strings.Contains(t, "/"+name+":") && !strings.Contains(t, "redeclared") && !strings.Contains(t, "already declared") {
+				drop = true
+			}
+		}
+		if !drop {
+			keep = append(keep, line)
+		}
+	}
+	return strings.Join(keep, "\n")
+}
+
 var branchRe = regexp.MustCompile(`\b(break|continue|fallthrough|goto|label)\b`)
 
 func subOf(family, msg string) string {
@@ -344,6 +373,14 @@ func TestPackages(t *testing.T) {
 			if be := out[p.Name].BuildErr; be != "" {
 				var i int
 				fmt.Sscanf(p.Name, "p%d", &i)
+				if be = generatedOnly(be, p.Name, accepted[i]); be == "" {
+					continue // every complaint is about a hand-written Go file of the package (a mutation hit it) or about another package of the batch
+				}
+				if toolchainTrouble.MatchString(be) {
+					// the go command lost its work directory or was killed: says nothing about the program
+					r.Infra("go build did not run properly: %s", be)
+					continue
+				}
 				v := r.Judge(vk.Bad(strings.Replace(classOf(be), "go-rejects:", "go-build-rejects:", 1), "cl and go/types accept, go build rejects: %s", be))
 				if v != nil {
 					r.Fail("pkg", accepted[i], v)
